@@ -3,14 +3,20 @@ import RsomeV.M.SocApprox
 namespace RsomeV.Drv
 open Lean
 
-/-- op "to_socp": `{"op":"to_socp","prog":<ConeProg json>,"degree":L,"cuts":["lo","hi"]}` →
-the model of `GCProg.to_socp(L, (lo, hi))` in the `writeConeProg` format -/
+/-- op "to_socp": `{"op":"to_socp","prog":<ConeProg json>,"degree":L,"cuts":["lo","hi"],"elo":"p/q"}` →
+the model of `GCProg.to_socp(L, (lo, hi))` in the `writeConeProg` format.  `elo` is the float
+`np.exp(lo)` the code writes at `(row 0, α0)` of every block, as an exact rational string.  The field
+is REQUIRED: a request without it (the format used before the repair of `to_socp`) is rejected, so
+that an old-format call cannot silently model the old code. -/
 def opToSocp (j : Json) : Except String Json := do
   let P ← readConeProg (← fld j "prog")
   let L ← jNat (← fld j "degree")
   let cuts ← jRatArr (← fld j "cuts")
+  let elo ← match j.getObjVal? "elo" with
+    | .ok e => jRat e
+    | .error _ => throw "to_socp: field \"elo\" (np.exp(cut_lower) as a rational string) is required"
   if cuts.size ≠ 2 then throw "to_socp: cuts must have two entries"
   if L = 0 then throw "to_socp: degree 0 (rsome raises IndexError)"
-  pure (writeConeProg (SocApprox.toSocp P L (cuts.getD 0 0) (cuts.getD 1 0)))
+  pure (writeConeProg (SocApprox.toSocp P L (cuts.getD 0 0) (cuts.getD 1 0) elo))
 
 end RsomeV.Drv
